@@ -270,7 +270,8 @@ def hints_depth1(leaves=LEAVES, core=CORE_LEAVES):
                 if h:
                     out.append(h)
     # ternaries
-    for a, b, c in [(core[0], core[1], core[2]), (core[3], core[0], core[5]), (core[1], core[4], core[6])]:
+    n = len(core)
+    for a, b, c in [(core[0], core[1 % n], core[2 % n]), (core[3 % n], core[0], core[5 % n]), (core[1 % n], core[4 % n], core[6 % n])]:
         out.append((f'Union[{a[0]},{b[0]},{c[0]}]', Union[a[1], b[1], c[1]]))
         out.append((f'Tuple3[{a[0]},{b[0]},{c[0]}]', Tuple[a[1], b[1], c[1]]))
     # PEP 604
@@ -326,7 +327,7 @@ def hints_depth2_curated():
 
 
 def hints_depth2_full():
-    d1 = hints_depth1()
+    d1 = hints_depth1(leaves=CORE_LEAVES + [('Type[UA]', Type[uc.UA]), ('TC', TC)], core=CORE_LEAVES[:4])
     out = []
     for un, uf in UNARY:
         for k in d1:
@@ -337,7 +338,7 @@ def hints_depth2_full():
 
 
 def hints_depth3_reduced():
-    base = [('int', int), ('Lit_a_None', Literal['a', None]), ('UA', uc.UA)]
+    base = [('int', int), ('Lit_a_None', Literal['a', None])]
     lvl = list(base)
     for _ in range(2):
         nxt = []
@@ -353,8 +354,12 @@ def hints_depth3_reduced():
                     nxt.append(h)
         lvl = nxt
     out = []
+    i = 0
     for un, uf in FAMILY_UNARY:
         for k in lvl:
+            i += 1
+            if i % 3:
+                continue
             h = _mk(f'{un}[{k[0]}]', uf, k)
             if h:
                 out.append(h)
